@@ -17,7 +17,7 @@ RULE = ('chains of <=4 commands over {Continue(f,*a,**k), Wait(f,msg,data)+resum
 ASSUMPTIONS = ['arguments are JSON-representable values (so equality after a pickle round trip is value equality), plus two resume values with an unusual == '
                '(equal to anything; == without a truth value) compared by their repr',
                'reference interpreter written from the property statement']
-REQUIRED = ['exit_window_restores', 'resume_with_pause', 'mutating_chains', 'continuations', 'kwargs_checked', 'resume_with_value', 'resume_without_value', 'restored_runs', 'terminal/finished', 'terminal/killed',
+REQUIRED = ['paused_hook_checkpoints', 'exit_window_restores', 'resume_with_pause', 'mutating_chains', 'continuations', 'kwargs_checked', 'resume_with_value', 'resume_without_value', 'restored_runs', 'terminal/finished', 'terminal/killed',
             'terminal/excepted', 'unsuccessful']
 BOUNDS = {'quick': 'all 2-command chains over the shape alphabet + 300 random chains of length 3-4; restore: all boundaries at once and each singly',
           'thorough': '3000 random chains, every subset of <=2 boundaries'}
@@ -76,6 +76,10 @@ def gen_cases(tier, seed):
         for k, st in enumerate(prog['steps']):
             if not prog.get('mutate_args') and st['ret'][0] != 'wait':
                 yield {'program': prog, 'resumes': resumes, 'crash': [], 'ci': ci, 'exit_crash': k}
+        # a pause requested while step k is in flight; the checkpoint is written from the paused hook (after the step has returned its
+        # command) and restored: the played process goes on with exactly what the step returned
+        for b in range(len(prog['steps'])):
+            yield {'program': prog, 'resumes': resumes, 'crash': [], 'ci': ci, 'paused_crash': b}
         if resumes:
             # a pause request arriving in the same loop iteration as the resume (before / after it), played afterwards
             for mode in ('pause-resume', 'resume-pause'):
@@ -93,11 +97,11 @@ def run_case(case):
 
     xc = case.get('exit_crash')
     r = persist.run_with_crashes(lambda loop: cls(loop=loop), case['crash'], resume_for_wait, resume_mode=case.get('resume_mode', 'plain'),
-                                 exit_crashes=() if xc is None else (xc,))
+                                 exit_crashes=() if xc is None else (xc,), paused_crashes=() if case.get('paused_crash') is None else (case['paused_crash'],))
     obs = {'continuations': 0, 'kwargs_checked': 0, 'resume_with_value': 0, 'resume_without_value': 0, 'restored_runs': 0, 'terminal': {},
-           'unsuccessful': 0, 'resume_with_pause': int(bool(case.get('resume_mode')))}
+           'unsuccessful': 0, 'resume_with_pause': int(bool(case.get('resume_mode'))), 'paused_hook_checkpoints': 0}
     if r.get('inconclusive'):
-        return {'viol': [], 'obs': obs, 'inconclusive': r['inconclusive'], 'key': [prog, case['crash'], case.get('resume_mode'), case.get('exit_crash')], 'nontrivial': False}
+        return {'viol': [], 'obs': obs, 'inconclusive': r['inconclusive'], 'key': [prog, case['crash'], case.get('resume_mode'), case.get('exit_crash'), case.get('paused_crash')], 'nontrivial': False}
     exp = programs.expected_run(prog, [(has, programs._jsonable(programs.special(val))) for has, val in resumes])
     got = [[t[1], t[4], t[5]] for t in r['trace'] if t[0] == 'enter']
     if xc is not None and r.get('restores'):
@@ -110,6 +114,9 @@ def run_case(case):
     V = judges.V
     shape = '>'.join(_shape(s['ret']) for s in prog['steps'])
     mode = 'restored' if case['crash'] else ('restored-from-exit' if xc is not None else case.get('resume_mode', 'plain'))
+    if case.get('paused_crash') is not None:
+        mode = 'restored-from-paused-hook'
+        obs['paused_hook_checkpoints'] = sum(1 for l in r['log'] if l[0] == 'checkpoint-in-paused-hook')
     if got != exp['enters']:
         # locate first differing continuation
         k = next((i for i, (g, e) in enumerate(zip(got, exp['enters'])) if g != e), min(len(got), len(exp['enters'])))
@@ -142,7 +149,7 @@ def run_case(case):
         obs['resume_with_value' if has else 'resume_without_value'] += 1
     obs['restored_runs'] = 1 if r['restores'] else 0
     obs['mutating_chains'] = int(bool(prog.get('mutate_args')) and bool(r['restores']))
-    res = {'viol': viol, 'obs': obs, 'key': [prog, case['crash'], case.get('resume_mode'), case.get('exit_crash')], 'nontrivial': len(got) > 1 or bool(obs['terminal'])}
+    res = {'viol': viol, 'obs': obs, 'key': [prog, case['crash'], case.get('resume_mode'), case.get('exit_crash'), case.get('paused_crash')], 'nontrivial': len(got) > 1 or bool(obs['terminal'])}
     res['sample'] = {'chain': [s['ret'] for s in prog['steps']], 'resumes': resumes, 'crash_points': case['crash'], 'received': got,
                      'final': [r['views']['state'], r['views']['result']], 'restores': r['restores']}
     return res
